@@ -14,7 +14,8 @@ Inductive pyerr :=
 | NegativeIndex         (* a negative index or slice bound: Python would wrap around, not modelled *)
 | AssertionError
 | ZeroDivisionError
-| ShapeError.           (* slice assignment with a right-hand side of another length *)
+| ShapeError            (* slice assignment with a right-hand side of another length *)
+| ValueError.           (* unpacking a sequence of the wrong length *)
 
 Inductive res (A : Type) := Ok (a : A) | OutOfFuel | PyErr (e : pyerr).
 Arguments Ok {A}. Arguments OutOfFuel {A}. Arguments PyErr {A}.
@@ -57,6 +58,13 @@ Definition zslice_assign {A} (l : list A) (a b : option Z) (xs : list A) : res (
     let lo := Nat.min (Z.to_nat a') (length l) in
     let hi := Nat.max lo (Nat.min (Z.to_nat b') (length l)) in
     if Nat.eqb (hi - lo) (length xs) then Ok (firstn lo l ++ xs ++ skipn hi l) else PyErr ShapeError.
+
+(* a, b = l[-2:] : the last two elements (a shorter list cannot be unpacked into two names) *)
+Definition zlast2 {A} (l : list A) : res (A * A) :=
+  match rev l with
+  | b :: a :: _ => Ok (a, b)
+  | _ => PyErr ValueError
+  end.
 
 (* ---- integer arithmetic that can fail ---- *)
 Definition zfloordiv (a b : Z) : res Z := if (b =? 0)%Z then PyErr ZeroDivisionError else Ok (a / b)%Z.
